@@ -102,6 +102,13 @@ impl Prop for C02 {
         env.known.excluded("C02", &c.src, &root, Some(&c.cfg))
     }
 
+    fn excluded_up_front(&self, c: &SrcCase, env: &Env) -> Option<String> {
+        // R1 and R3: precise triggers, and the program generator writes `#(1). Next` on purpose
+        let root = syn::parse(&c.src);
+        let trig = vlib::known::triggers(&c.src, &root);
+        ["R1", "R3"].iter().find(|id| env.known.active("C02").iter().any(|x| x == *id) && trig.contains(id)).map(|id| id.to_string())
+    }
+
     fn check(&self, c: &SrcCase, env: &Env, st: &mut Stats) -> Verdict {
         if !syn::wf(&c.src) {
             return Verdict::skip("input-not-well-formed");
